@@ -37,7 +37,7 @@ def run_case(case, chooser):
     ports_arg = (p for p in list(pool)) if case.get("ports_as") == "generator" else list(pool)
     rig = Rig(chooser=chooser, n_sessions=n, tree={"f": b"abc"}, host=host, start_kwargs=case.get("start_kwargs"),
               **({"users": _accounts} if case.get("accounts") else {}),
-              server_kwargs={"data_ports": ports_arg, "wait_future_timeout": 1,
+              server_kwargs={"data_ports": ports_arg, "wait_future_timeout": 1, **case.get("server_kwargs", {}),
                              **({"socket_timeout": case["socket_timeout"]} if case.get("socket_timeout") else {})})
     try:
         w = rig.world
@@ -123,7 +123,7 @@ def run_case(case, chooser):
                         s = Session(w, name=f"again{k}", host=host)
                         s.connect()
                         s.login()
-                        r = s.passive("PASV" if ":" not in host else "EPSV")
+                        r = s.passive("PASV" if ":" not in host and not case.get("server_kwargs") else "EPSV")
                         code = r[-1][0] if r else None
                         if code not in ("227", "229") or s.pasv_port not in pool or s.pasv_port in got:
                             problems.append({"kind": "restarted-server-port-missing", "k": k, "code": code,
@@ -157,7 +157,7 @@ def run_case(case, chooser):
                 probes.append(s)
                 s.connect()
                 s.login()
-                r = s.passive("PASV" if ":" not in host else "EPSV")
+                r = s.passive("PASV" if ":" not in host and not case.get("server_kwargs") else "EPSV")
                 code = r[-1][0] if r else None
                 if k < len(pool):
                     if code not in ("227", "229") or s.pasv_port not in pool or s.pasv_port in got:
@@ -283,6 +283,13 @@ def build_items(tier):
             if any(e.startswith("USER") for _, e in seq) and any(e in ("PASV", "EPSV") for _, e in seq):
                 items.append(("seq", {"name": f"seq-accounts-p{psize}", "pool": PORTS[:psize], "n": 2, "events": seq,
                                       "accounts": True}, 0, [], None))
+    # a forced PASV response address (a server behind NAT): a dotted quad, or a host name the 227 reply cannot carry -
+    # however the command ends, the port it took is in the pool or bound
+    for forced in ("10.1.2.3", "localhost", "ftp.example.com", ""):
+        for psize in (1, 2):
+            for seq in _seqs(2, ["PASV", "EPSV", "QUIT", "@drop"], 3):
+                items.append(("seq", {"name": f"seq-forced-p{psize}", "pool": PORTS[:psize], "n": 2, "events": seq,
+                                      "server_kwargs": {"ipv4_pasv_forced_response_address": forced}}, 0, [], None))
     # family C: three sessions on two ports
     for seq in _seqs(3, ["PASV", "QUIT", "@drop"], 3):
         items.append(("seq", {"name": "seq3-p2", "pool": PORTS[:2], "n": 3, "events": seq}, 0, [], None))
